@@ -15,9 +15,10 @@ import (
 func init() { Monitors["C15"] = runC15 }
 
 type urlClass struct {
-	Re     string // "" = default
-	Values []string
-	Last   bool // may only be used for the last variable (can span '/')
+	Re      string // "" = default
+	Values  []string
+	Last    bool // may only be used for the last variable (can span a slash)
+	NotLast bool // accepts the empty string: never the last or the first variable
 }
 
 var urlClasses = []urlClass{
@@ -28,16 +29,19 @@ var urlClasses = []urlClass{
 	{Re: `(?:ab|cd)+`, Values: []string{"ab", "cdab", "cd"}},
 	{Re: `[[:alpha:]]+`, Values: []string{"abc", "Z", "xY"}},
 	{Re: `.+`, Values: []string{"a", "a/b", "x y/z?", "%2F/..", "{id}/{name}", "a//b"}, Last: true},
+	// a class that accepts the empty string: "" is a value like any other (never as the last or a leading segment,
+	// where the path normalisation would take the empty segment away)
+	{Re: `[a-z]*`, Values: []string{"", "ab", "", "z"}, NotLast: true},
 }
 
 type namedRouteSpec struct {
-	ID    string // unique id written by the handler
-	Name  string
-	Path  string
-	Vars  []string
-	Cls   []int
-	API   string
-	route *rux.Route
+	ID       string // unique id written by the handler
+	Name     string
+	Path     string
+	Vars     []string
+	Cls      []int
+	API      string
+	route    *rux.Route
 	VarFirst bool
 }
 
@@ -57,6 +61,9 @@ func genNamedRoute(r *rand.Rand, k int, name string) *namedRouteSpec {
 	for i := 0; i < nv; i++ {
 		ci := r.IntN(len(urlClasses))
 		if urlClasses[ci].Last && i != nv-1 {
+			ci = 0
+		}
+		if urlClasses[ci].NotLast && (i == nv-1 || i == 0) {
 			ci = 0
 		}
 		if chance(r, 1, 2) {
@@ -361,7 +368,7 @@ func c15Case(t *T) {
 						t.Fail("roundtrip-params-differ", "%s -> %q; the request carries params {%s}, the URL was built from {%s}", desc, s, fmtParams(copyParams(ps)), fmtParams(vals))
 						return
 					}
-					req := &http.Request{Method: "GET", URL: parsed, Header: http.Header{}, Body: http.NoBody, RequestURI: s, Proto: "HTTP/1.1", ProtoMajor: 1, ProtoMinor: 1, Host: "example.test"}
+					req := &http.Request{Method: pick(r, []string{"GET", "GET", "HEAD"}), URL: parsed, Header: http.Header{}, Body: http.NoBody, RequestURI: s, Proto: "HTTP/1.1", ProtoMajor: 1, ProtoMinor: 1, Host: "example.test"}
 					rec, pv2, pan2 := Serve(router, req)
 					if pan2 {
 						t.Fail("servehttp-panics", "%s -> %q: ServeHTTP panicked: %v", desc, s, pv2)
